@@ -68,10 +68,8 @@ func VH_C19_distanceOrder() bool {
 
 // ---- cache queries: nearest-first enumeration, Closest, ForEachCloser, ForEachMatching
 
+// 3 entries (tried as the thorough bound) did not finish within 40 minutes: outside the claim.
 func vMaxEntries() int {
-	if vThorough() {
-		return 3
-	}
 	return 2
 }
 
@@ -93,7 +91,7 @@ func vBuildCache(locus []byte, n int, klen int) (*Cache[byte], [][]byte) {
 	return c, keys
 }
 
-// verif: unwind=24 cover=max-entries map_perm_max=1 bounds="locus, query key and 0..2 (quick) / 0..3 (thorough) distinct entry keys of 1 byte each, all symbolic: ForEach visits every entry once in non-decreasing XOR distance; Closest is a minimum"
+// verif: unwind=24 cover=max-entries map_perm_max=1 bounds="locus, query key and 0..2 distinct entry keys of 1 byte each, all symbolic: ForEach visits every entry once in non-decreasing XOR distance; Closest is a minimum"
 func VH_C19_forEachNearestFirst() bool {
 	locus := vBytesN(1)
 	n := vInt(0, vMaxEntries())
@@ -143,7 +141,7 @@ func VH_C19_forEachNearestFirst() bool {
 	return true
 }
 
-// verif: unwind=24 cover=some-closer,none-closer map_perm_max=1 bounds="locus, query key and 0..2 (quick) / 0..3 (thorough) distinct entry keys of 1 byte each: ForEachCloser yields exactly the entries nearer to the key than the locus is"
+// verif: unwind=24 cover=some-closer,none-closer map_perm_max=1 bounds="locus, query key and 0..2 distinct entry keys of 1 byte each: ForEachCloser yields exactly the entries nearer to the key than the locus is"
 func VH_C19_forEachCloserExact() bool {
 	locus := vBytesN(1)
 	n := vInt(0, vMaxEntries())
@@ -186,7 +184,7 @@ func VH_C19_forEachCloserExact() bool {
 	return true
 }
 
-// verif: unwind=24 cover=some-match map_perm_max=1 bounds="locus and 0..1 (quick) / 0..2 (thorough) distinct entry keys of 1 byte, prefix 1 byte, nbits 0..8: ForEachMatching yields exactly the entries sharing the first nbits bits with the prefix"
+// verif: unwind=24 cover=some-match map_perm_max=1 bounds="locus and 0..1 distinct entry keys of 1 byte, prefix 1 byte, nbits 0..8: ForEachMatching yields exactly the entries sharing the first nbits bits with the prefix"
 func VH_C19_forEachMatchingExact() bool {
 	locus := vBytesN(1)
 	n := vInt(0, vMaxEntries()-1)
